@@ -45,3 +45,37 @@ Example c01_nonvacuous :
   let st := {| st_stmts := []; st_full_stanza_idx := 0; st_full_file_idx := 0; st_start := (0, 0) |} in
   length (blocks [st; st] [[[(0, [1])]; [(0, [2])]]; [[(0, [3])]]]) = 3%nat.
 Proof. reflexivity. Qed.
+
+(* ---- THE STANDARD LIBRARY.  Both hypotheses on the function library hold of the model of the standard library
+   (`stdlib_call rxo t` of Model/Stdlib.v, every regex oracle rxo, on the tree the program runs on):
+   `call_errors_base` by C13 error_classes (stdlib_errors_base, Props/C20.v), `call_extends` because only `node`
+   changes the graph, by appending one fresh node (stdlib_extends, Props/C09.v).  The theorems above, instantiated: *)
+From TSG Require Import Model.Stdlib Proofs.StdlibHyps.
+
+Theorem strict_refines_reference_stdlib : forall {rx : Type} rxo t fl supplied (regexes : list rx) find fuel matches g0,
+  match run_strict t fl config0 supplied None regexes find (stdlib_call rxo t) fuel matches g0 with
+  | Ok (s, _) => ref_run t fl supplied regexes find (stdlib_call rxo t) fuel matches g0 = Ok (s_graph s)
+  | Err e => ref_run t fl supplied regexes find (stdlib_call rxo t) fuel matches g0 = Err (root_cause e)
+  | Panic x => ref_run t fl supplied regexes find (stdlib_call rxo t) fuel matches g0 = Panic x
+  | OutOfFuel => ref_run t fl supplied regexes find (stdlib_call rxo t) fuel matches g0 = OutOfFuel
+  end.
+Proof.
+  intros rx rxo t fl supplied regexes find fuel matches g0.
+  exact (@strict_refines_reference rx t fl supplied regexes find (stdlib_call rxo t) fuel matches g0 (stdlib_call_errors_base rxo t)).
+Qed.
+
+Theorem params_stack_balanced_stdlib : forall rxo t (ev rv : expr -> M sstate value) f,
+  (forall a, sim (ev a) (rv a)) -> forall args,
+  sim (iterM (fun a => v <- ev a ;; push_param v) args ;;; ps <- drain_params (length args) ;; call_function (stdlib_call rxo t) f ps)
+      (vs <- mapM rv args ;; call_function (stdlib_call rxo t) f vs).
+Proof. intros rxo t. exact (params_stack_balanced (stdlib_call rxo t) (stdlib_call_errors_base rxo t)). Qed.
+
+Theorem strict_only_adds_stdlib : forall {rx} rxo t fl cfg supplied budget (regexes : list rx) find fuel matches g0 s p,
+  Proofs.Containers.graph_wf g0 ->
+  run_strict t fl cfg supplied budget regexes find (stdlib_call rxo t) fuel matches g0 = Ok (s, p) ->
+  graph_ext g0 (s_graph s).
+Proof.
+  intros rx rxo t fl cfg supplied budget regexes find fuel matches g0 s p.
+  exact (@strict_only_adds rx t fl cfg supplied budget regexes find (stdlib_call rxo t) fuel matches g0 s p (stdlib_call_extends rxo t)).
+Qed.
+
